@@ -223,7 +223,7 @@ static void run(Platform plat, PlatformABI pabi) {
   // ---- machine at function entry
   val_t entry_gp[16], entry_vec[NV], entry_k[8], entry_mm[8];
   top = nondet_u32() & ~val_t(N - 1);          // the caller keeps (entry SP + return address) aligned to the natural alignment
-  V_ASSUME(top >= 0x10000 && top <= 0x7FFF0000u);
+  V_ASSUME(top >= 0x100000 && top <= 0x7FFF0000u);   // room for the largest frame below, no wrap-around above
   for (uint32_t i = 0; i < 16; i++) { entry_gp[i] = nondet_u32(); gp[i] = entry_gp[i]; }
   for (uint32_t i = 0; i < NV; i++) { entry_vec[i] = nondet_u32(); vec[i] = entry_vec[i]; }
   for (uint32_t i = 0; i < 8; i++) { entry_k[i] = nondet_u32(); entry_mm[i] = nondet_u32(); kr[i] = entry_k[i]; mmr[i] = entry_mm[i]; }
